@@ -34,16 +34,16 @@ def M.isLitØ : M → Bool
   | .leaf _ => true
   | _ => false
 
-/-- a leaf or a disjunction of leaves -/
+/-- a leaf or a non-empty disjunction of leaves -/
 def M.isClause : M → Bool
   | .leaf _ => true
-  | .union ls => ls.all M.isLeaf
+  | .union ls => !ls.isEmpty && ls.all M.isLeaf
   | _ => false
 
-/-- a leaf or a conjunction of leaves -/
+/-- a leaf or a non-empty conjunction of leaves -/
 def M.isCube : M → Bool
   | .leaf _ => true
-  | .multi ls => ls.all M.isLeaf
+  | .multi ls => !ls.isEmpty && ls.all M.isLeaf
   | _ => false
 
 /-- Any, Empty or a clause -/
@@ -72,19 +72,19 @@ def M.isQIn : M → Bool
   | .multi ls => ls.all M.isLitE
   | _ => false
 
-/-- **conjunctive normal form**: Any, Empty, a leaf, a disjunction of leaves, or a conjunction whose
-members are leaves or disjunctions of leaves -/
+/-- **conjunctive normal form**: Any, Empty, a leaf, a non-empty disjunction of leaves, or a non-empty
+conjunction whose members are leaves or non-empty disjunctions of leaves -/
 def M.isCnf : M → Bool
   | .any => true
   | .empty => true
-  | .multi cs => cs.all M.isClause
+  | .multi cs => !cs.isEmpty && cs.all M.isClause
   | m => m.isClause
 
 /-- **disjunctive normal form** -/
 def M.isDnf : M → Bool
   | .any => true
   | .empty => true
-  | .union cs => cs.all M.isCube
+  | .union cs => !cs.isEmpty && cs.all M.isCube
   | m => m.isCube
 
 def M.isMulti : M → Bool
@@ -97,15 +97,15 @@ def M.isUnion : M → Bool
 theorem M.isCOut_isCIn {m : M} (h : m.isCOut = true) : m.isCIn = true := by
   cases m with
   | union ls =>
-    simp only [M.isCOut, M.isClause, M.isCIn, List.all_eq_true] at h ⊢
-    intro x hx; have := h x hx; cases x <;> simp_all [M.isLeaf, M.isLitE]
+    simp only [M.isCOut, M.isClause, M.isCIn, Bool.and_eq_true, List.all_eq_true] at h ⊢
+    intro x hx; have := h.2 x hx; cases x <;> simp_all [M.isLeaf, M.isLitE]
   | _ => simp_all [M.isCOut, M.isClause, M.isCIn]
 
 theorem M.isQOut_isQIn {m : M} (h : m.isQOut = true) : m.isQIn = true := by
   cases m with
   | multi ls =>
-    simp only [M.isQOut, M.isCube, M.isQIn, List.all_eq_true] at h ⊢
-    intro x hx; have := h x hx; cases x <;> simp_all [M.isLeaf, M.isLitE]
+    simp only [M.isQOut, M.isCube, M.isQIn, Bool.and_eq_true, List.all_eq_true] at h ⊢
+    intro x hx; have := h.2 x hx; cases x <;> simp_all [M.isLeaf, M.isLitE]
   | _ => simp_all [M.isQOut, M.isCube, M.isQIn]
 
 theorem M.isCOut_isCnf {m : M} (h : m.isCOut = true) : m.isCnf = true := by
@@ -171,6 +171,29 @@ theorem flattenAux_plain (b : Bool) (ms acc : List M)
       · exact Or.inr (by simp [h1])
     · have h2 := appendOne_len acc m
       simp only [List.length_cons]; omega
+
+theorem flattenAux_plain_len (b : Bool) (ms acc : List M)
+    (hp : ∀ x ∈ ms, (if b then x.isMulti else x.isUnion) = false) :
+    acc.length ≤ (flattenAux b ms acc).length ∧ (ms ≠ [] → flattenAux b ms acc ≠ []) := by
+  induction ms generalizing acc with
+  | nil => rw [flattenAux.eq_def]; simp
+  | cons m ms ih =>
+    have hm := hp m (by simp)
+    have e : flattenAux b (m :: ms) acc = flattenAux b ms (if M.mem m acc = true then acc else acc ++ [m]) := by
+      rw [flattenAux.eq_def]
+      cases b <;> cases m <;> simp_all [M.isMulti, M.isUnion]
+    rw [e]
+    have := (ih (if M.mem m acc = true then acc else acc ++ [m]) (fun x hx => hp x (by simp [hx]))).1
+    have hlen : acc.length ≤ (if M.mem m acc = true then acc else acc ++ [m]).length := by split <;> simp
+    have hpos : 0 < (if M.mem m acc = true then acc else acc ++ [m]).length := by
+      split
+      · rename_i hmem
+        cases acc with
+        | nil => simp [M.mem] at hmem
+        | cons a l => simp
+      · simp
+    refine ⟨Nat.le_trans hlen this, fun _ hnil => ?_⟩
+    rw [hnil] at this; simp only [List.length_nil] at this; omega
 
 /-- union-flattening a list of `isCIn` markers yields Any/Empty/leaves -/
 theorem flattenAux_union_lits (ms acc : List M) : (∀ x ∈ ms, x.isCIn = true) → (∀ x ∈ acc, x.isLitE = true) →
@@ -260,7 +283,7 @@ theorem flattenAux_multi_clauses (ms acc : List M) : (∀ x ∈ ms, x.isCnf = tr
     rw [flattenAux.eq_def]
     simp only
     have hin : ∀ x ∈ inner, x.isClause = true := by
-      have := hm (.multi inner) (by simp); simpa [M.isCnf] using this
+      have := hm (.multi inner) (by simp); simp [M.isCnf] at this; exact this.2
     have hplain := flattenAux_plain true inner [] (by
       intro x hx; have := hin x hx; cases x <;> simp_all [M.isClause, M.isMulti])
     apply ih2 (fun x hx => hm x (by simp [hx]))
@@ -300,7 +323,7 @@ theorem flattenAux_union_cubes (ms acc : List M) : (∀ x ∈ ms, x.isDnf = true
     rw [flattenAux.eq_def]
     simp only
     have hin : ∀ x ∈ inner, x.isCube = true := by
-      have := hm (.union inner) (by simp); simpa [M.isDnf] using this
+      have := hm (.union inner) (by simp); simp [M.isDnf] at this; exact this.2
     have hplain := flattenAux_plain false inner [] (by
       intro x hx; have := hin x hx; cases x <;> simp_all [M.isCube, M.isUnion])
     apply ih2 (fun x hx => hm x (by simp [hx]))
@@ -432,19 +455,27 @@ theorem unionPass_lits : ∀ (n : Nat) (stk : Stack) (todo new l : List M), (∀
             · exact hn y hy
             · cases y <;> simp_all [M.isLitE, M.isLitA, M.isEmpty]
 
-theorem mkUnion_leaves {new : List M} (h : ∀ y ∈ new, y.isLeaf = true) : (mkUnion new).isClause = true := by
-  have hplain := flattenAux_plain false new [] (by
-    intro x hx; have := h x hx; cases x <;> simp_all [M.isLeaf, M.isUnion])
-  simp only [mkUnion, flattenMarkers, M.isClause, List.all_eq_true]
+theorem mkUnion_leaves {new : List M} (hne : new ≠ []) (h : ∀ y ∈ new, y.isLeaf = true) :
+    (mkUnion new).isClause = true := by
+  have hpl : ∀ x ∈ new, (if false then x.isMulti else x.isUnion) = false := by
+    intro x hx; have := h x hx; cases x <;> simp_all [M.isLeaf, M.isUnion]
+  have hplain := flattenAux_plain false new [] hpl
+  have hnn := (flattenAux_plain_len false new [] hpl).2 hne
+  simp only [mkUnion, flattenMarkers, M.isClause, Bool.and_eq_true, List.all_eq_true]
+  refine ⟨by simpa using hnn, ?_⟩
   intro y hy
   rcases hplain.1 y hy with h3 | h3
   · simp at h3
   · exact h y h3
 
-theorem mkMulti_leaves {new : List M} (h : ∀ y ∈ new, y.isLeaf = true) : (mkMulti new).isCube = true := by
-  have hplain := flattenAux_plain true new [] (by
-    intro x hx; have := h x hx; cases x <;> simp_all [M.isLeaf, M.isMulti])
-  simp only [mkMulti, flattenMarkers, M.isCube, List.all_eq_true]
+theorem mkMulti_leaves {new : List M} (hne : new ≠ []) (h : ∀ y ∈ new, y.isLeaf = true) :
+    (mkMulti new).isCube = true := by
+  have hpl : ∀ x ∈ new, (if true then x.isMulti else x.isUnion) = false := by
+    intro x hx; have := h x hx; cases x <;> simp_all [M.isLeaf, M.isMulti]
+  have hplain := flattenAux_plain true new [] hpl
+  have hnn := (flattenAux_plain_len true new [] hpl).2 hne
+  simp only [mkMulti, flattenMarkers, M.isCube, Bool.and_eq_true, List.all_eq_true]
+  refine ⟨by simpa using hnn, ?_⟩
   intro y hy
   rcases hplain.1 y hy with h3 | h3
   · simp at h3
@@ -488,7 +519,7 @@ theorem unionOfLoop_lits : ∀ (n : Nat) (stk : Stack) (old new : List M) (r : M
           cases r <;> simp_all [M.isLeaf, M.isCOut, M.isClause]
         | a :: b :: l, hleaf, h =>
           simp only at h; cases h
-          have := mkUnion_leaves hleaf
+          have := mkUnion_leaves (by simp) hleaf
           simp only [mkUnion] at this ⊢
           simpa [M.isCOut] using this
     · simp only [hb, if_false, Bool.false_eq_true] at h
@@ -632,7 +663,7 @@ theorem multiOfLoop_lits : ∀ (n : Nat) (stk : Stack) (old new : List M) (r : M
           cases r <;> simp_all [M.isLeaf, M.isQOut, M.isCube]
         | a :: b :: l, hleaf, h =>
           simp only at h; cases h
-          have := mkMulti_leaves hleaf
+          have := mkMulti_leaves (by simp) hleaf
           simp only [mkMulti] at this ⊢
           simpa [M.isQOut] using this
     · simp only [hb, if_false, Bool.false_eq_true] at h
@@ -938,7 +969,7 @@ theorem mUnion_clause (MS : MergeShape) : ∀ (n : Nat) (stk : Stack) (a b r : M
           cases x <;> simp_all [M.isLitE, M.isCOut, M.isClause]
         | none =>
           rw [pure_ok] at h2; subst h2
-          have := mkUnion_leaves (new := [.leaf la, .leaf lb]) (by simp [M.isLeaf])
+          have := mkUnion_leaves (new := [.leaf la, .leaf lb]) (by simp) (by simp [M.isLeaf])
           simp only [mkUnion] at this ⊢
           simpa [M.isCOut] using this
       | any => exact ih stk _ _ r hb ha h
@@ -951,7 +982,7 @@ theorem mUnion_clause (MS : MergeShape) : ∀ (n : Nat) (stk : Stack) (a b r : M
 
 /-- `intersect_simplify` between a disjunction of leaves and a clause yields a clause -/
 theorem intersectSimplify_clause (MS : MergeShape) {n : Nat} {stk : Stack} {ours : List M} {other x : M}
-    (ho : ∀ y ∈ ours, y.isLeaf = true) (hoth : other.isCOut = true)
+    (hne : ours ≠ []) (ho : ∀ y ∈ ours, y.isLeaf = true) (hoth : other.isCOut = true)
     (h : intersectSimplify n stk ours other = .ok (some x)) : x.isCOut = true := by
   rw [intersectSimplify.eq_def] at h
   cases n with
@@ -966,7 +997,8 @@ theorem intersectSimplify_clause (MS : MergeShape) {n : Nat} {stk : Stack} {ours
         simp only at h
         by_cases h1 : isSubset ours theirs = true
         · simp only [h1, if_true] at h; cases h
-          simpa [M.isCOut, M.isClause] using ho
+          simp only [M.isCOut, M.isClause, Bool.and_eq_true, List.all_eq_true]
+          exact ⟨by simpa using hne, ho⟩
         · simp only [h1, if_false, Bool.false_eq_true] at h
           by_cases h2 : isSubset theirs ours = true
           · simp only [h2, if_true] at h; cases h; exact hoth
@@ -976,7 +1008,13 @@ theorem intersectSimplify_clause (MS : MergeShape) {n : Nat} {stk : Stack} {ours
             · simp only [h3, if_false, Bool.false_eq_true] at h
               obtain ⟨ui, hi1, hi2⟩ := bind_ok.1 h
               have hC : (mkUnion (ours.filter (fun m => M.mem m theirs))).isCOut = true := by
-                have := mkUnion_leaves (new := ours.filter (fun m => M.mem m theirs))
+                have hcne : ours.filter (fun m => M.mem m theirs) ≠ [] := by
+                  simp only [Bool.not_eq_true', Bool.not_eq_false, List.any_eq_true] at h3
+                  obtain ⟨y, hy, hmy⟩ := h3
+                  intro hnil
+                  have : y ∈ ours.filter (fun m => M.mem m theirs) := List.mem_filter.2 ⟨hy, hmy⟩
+                  rw [hnil] at this; simp at this
+                have := mkUnion_leaves (new := ours.filter (fun m => M.mem m theirs)) hcne
                   (fun y hy => ho y (List.mem_filter.1 hy).1)
                 simp only [mkUnion] at this ⊢
                 simpa [M.isCOut] using this
@@ -1124,7 +1162,7 @@ theorem mIntersect_cube (MS : MergeShape) : ∀ (n : Nat) (stk : Stack) (a b r :
           cases x <;> simp_all [M.isLitE, M.isQOut, M.isCube]
         | none =>
           rw [pure_ok] at h2; subst h2
-          have := mkMulti_leaves (new := [.leaf la, .leaf lb]) (by simp [M.isLeaf])
+          have := mkMulti_leaves (new := [.leaf la, .leaf lb]) (by simp) (by simp [M.isLeaf])
           simp only [mkMulti] at this ⊢
           simpa [M.isQOut] using this
       | empty => exact ih stk _ _ r hb ha h
@@ -1137,7 +1175,7 @@ theorem mIntersect_cube (MS : MergeShape) : ∀ (n : Nat) (stk : Stack) (a b r :
 
 /-- `intersect_simplify` between a disjunction of leaves and a clause yields a clause -/
 theorem unionSimplify_cube (MS : MergeShape) {n : Nat} {stk : Stack} {ours : List M} {other x : M}
-    (ho : ∀ y ∈ ours, y.isLeaf = true) (hoth : other.isQOut = true)
+    (hne : ours ≠ []) (ho : ∀ y ∈ ours, y.isLeaf = true) (hoth : other.isQOut = true)
     (h : unionSimplify n stk ours other = .ok (some x)) : x.isQOut = true := by
   rw [unionSimplify.eq_def] at h
   cases n with
@@ -1152,7 +1190,8 @@ theorem unionSimplify_cube (MS : MergeShape) {n : Nat} {stk : Stack} {ours : Lis
         simp only at h
         by_cases h1 : isSubset ours theirs = true
         · simp only [h1, if_true] at h; cases h
-          simpa [M.isQOut, M.isCube] using ho
+          simp only [M.isQOut, M.isCube, Bool.and_eq_true, List.all_eq_true]
+          exact ⟨by simpa using hne, ho⟩
         · simp only [h1, if_false, Bool.false_eq_true] at h
           by_cases h2 : isSubset theirs ours = true
           · simp only [h2, if_true] at h; cases h; exact hoth
@@ -1162,7 +1201,13 @@ theorem unionSimplify_cube (MS : MergeShape) {n : Nat} {stk : Stack} {ours : Lis
             · simp only [h3, if_false, Bool.false_eq_true] at h
               obtain ⟨ui, hi1, hi2⟩ := bind_ok.1 h
               have hC : (mkMulti (ours.filter (fun m => M.mem m theirs))).isQOut = true := by
-                have := mkMulti_leaves (new := ours.filter (fun m => M.mem m theirs))
+                have hcne : ours.filter (fun m => M.mem m theirs) ≠ [] := by
+                  simp only [Bool.not_eq_true', Bool.not_eq_false, List.any_eq_true] at h3
+                  obtain ⟨y, hy, hmy⟩ := h3
+                  intro hnil
+                  have : y ∈ ours.filter (fun m => M.mem m theirs) := List.mem_filter.2 ⟨hy, hmy⟩
+                  rw [hnil] at this; simp at this
+                have := mkMulti_leaves (new := ours.filter (fun m => M.mem m theirs)) hcne
                   (fun y hy => ho y (List.mem_filter.1 hy).1)
                 simp only [mkMulti] at this ⊢
                 simpa [M.isQOut] using this
@@ -1219,24 +1264,26 @@ theorem multiTry_clauses (MS : MergeShape) : ∀ (n : Nat) (stk : Stack) (marker
         · exact hx
       split at h
       · rename_i x0 us
-        have hus : ∀ y ∈ us, y.isLeaf = true := by simpa [M.isCOut, M.isClause] using hmark
+        have hus' : us ≠ [] ∧ ∀ y ∈ us, y.isLeaf = true := by simpa [M.isCOut, M.isClause] using hmark
+        have hus := hus'.2
         obtain ⟨r0, h1, h2⟩ := bind_ok.1 h
         cases r0 with
         | some x =>
           simp [pure, Except.pure, bind, Except.bind] at h2; subst h2
           injection hl with hl; injection hl with hl; subst hl
-          exact hset x (intersectSimplify_clause MS hus hmk h1)
+          exact hset x (intersectSimplify_clause MS hus'.1 hus hmk h1)
         | none =>
           simp [pure, Except.pure, bind, Except.bind] at h2
           exact ih stk _ all (i + 1) more r hmk hall hmore h2 l hl
       · rename_i us _
-        have hus : ∀ y ∈ us, y.isLeaf = true := by simpa [M.isCOut, M.isClause] using hmk
+        have hus' : us ≠ [] ∧ ∀ y ∈ us, y.isLeaf = true := by simpa [M.isCOut, M.isClause] using hmk
+        have hus := hus'.2
         obtain ⟨r0, h1, h2⟩ := bind_ok.1 h
         cases r0 with
         | some x =>
           simp [pure, Except.pure, bind, Except.bind] at h2; subst h2
           injection hl with hl; injection hl with hl; subst hl
-          exact hset x (intersectSimplify_clause MS hus hmark h1)
+          exact hset x (intersectSimplify_clause MS hus'.1 hus hmark h1)
         | none =>
           simp [pure, Except.pure, bind, Except.bind] at h2
           exact ih stk _ all (i + 1) more r hmk hall hmore h2 l hl
@@ -1326,10 +1373,13 @@ theorem multiPass_clauses (MS : MergeShape) : ∀ (n : Nat) (stk : Stack) (todo 
               · exact Or.inr (by simpa using he)
             · exact Or.inr h3
 
-theorem mkMulti_clauses {new : List M} (h : ∀ y ∈ new, y.isClause = true) : (mkMulti new).isCnf = true := by
-  have hplain := flattenAux_plain true new [] (by
-    intro x hx; have := h x hx; cases x <;> simp_all [M.isClause, M.isMulti])
-  simp only [mkMulti, flattenMarkers, M.isCnf, List.all_eq_true]
+theorem mkMulti_clauses {new : List M} (hne : new ≠ []) (h : ∀ y ∈ new, y.isClause = true) : (mkMulti new).isCnf = true := by
+  have hpl : ∀ x ∈ new, (if true then x.isMulti else x.isUnion) = false := by
+    intro x hx; have := h x hx; cases x <;> simp_all [M.isClause, M.isMulti]
+  have hplain := flattenAux_plain true new [] hpl
+  have hnn := (flattenAux_plain_len true new [] hpl).2 hne
+  simp only [mkMulti, flattenMarkers, M.isCnf, Bool.and_eq_true, List.all_eq_true]
+  refine ⟨by simpa using hnn, ?_⟩
   intro y hy
   rcases hplain.1 y hy with h3 | h3
   · simp at h3
@@ -1365,7 +1415,7 @@ theorem multiOfLoop_clauses (MS : MergeShape) : ∀ (n : Nat) (stk : Stack) (old
           cases r <;> simp_all [M.isClause, M.isCnf]
         | a :: b :: l, hcl, h =>
           simp only at h; cases h
-          exact mkMulti_clauses hcl
+          exact mkMulti_clauses (by simp) hcl
     · simp only [hb, if_false, Bool.false_eq_true] at h
       obtain ⟨p, h1, h2⟩ := bind_ok.1 h
       cases p with
@@ -1398,8 +1448,8 @@ theorem multiOf_cnf (MS : MergeShape) {n : Nat} {stk : Stack} {ms : List M} {r :
 theorem membersIfMulti_cnf {c : M} (hc : c.isCnf = true) : ∀ x ∈ membersIfMulti c, x.isCOut = true := by
   cases c with
   | multi cls =>
-    simp only [membersIfMulti, M.isCnf, List.all_eq_true] at hc ⊢
-    intro x hx; have := hc x hx; cases x <;> simp_all [M.isClause, M.isCOut]
+    simp only [membersIfMulti, M.isCnf, Bool.and_eq_true, List.all_eq_true] at hc ⊢
+    intro x hx; have := hc.2 x hx; cases x <;> simp_all [M.isClause, M.isCOut]
   | _ => simp_all [membersIfMulti, M.isCnf, M.isCOut]
 
 theorem mapCnf_shape {n : Nat} {stk : Stack} (hc : ∀ m r, cnf n stk m = .ok r → r.isCnf = true) :
@@ -1500,24 +1550,26 @@ theorem unionTry_cubes (MS : MergeShape) : ∀ (n : Nat) (stk : Stack) (marker :
         · exact hx
       split at h
       · rename_i x0 us
-        have hus : ∀ y ∈ us, y.isLeaf = true := by simpa [M.isQOut, M.isCube] using hmark
+        have hus' : us ≠ [] ∧ ∀ y ∈ us, y.isLeaf = true := by simpa [M.isQOut, M.isCube] using hmark
+        have hus := hus'.2
         obtain ⟨r0, h1, h2⟩ := bind_ok.1 h
         cases r0 with
         | some x =>
           simp [pure, Except.pure, bind, Except.bind] at h2; subst h2
           injection hl with hl; injection hl with hl; subst hl
-          exact hset x (unionSimplify_cube MS hus hmk h1)
+          exact hset x (unionSimplify_cube MS hus'.1 hus hmk h1)
         | none =>
           simp [pure, Except.pure, bind, Except.bind] at h2
           exact ih stk _ all (i + 1) more r hmk hall hmore h2 l hl
       · rename_i us _
-        have hus : ∀ y ∈ us, y.isLeaf = true := by simpa [M.isQOut, M.isCube] using hmk
+        have hus' : us ≠ [] ∧ ∀ y ∈ us, y.isLeaf = true := by simpa [M.isQOut, M.isCube] using hmk
+        have hus := hus'.2
         obtain ⟨r0, h1, h2⟩ := bind_ok.1 h
         cases r0 with
         | some x =>
           simp [pure, Except.pure, bind, Except.bind] at h2; subst h2
           injection hl with hl; injection hl with hl; subst hl
-          exact hset x (unionSimplify_cube MS hus hmark h1)
+          exact hset x (unionSimplify_cube MS hus'.1 hus hmark h1)
         | none =>
           simp [pure, Except.pure, bind, Except.bind] at h2
           exact ih stk _ all (i + 1) more r hmk hall hmore h2 l hl
@@ -1607,10 +1659,13 @@ theorem unionPass_cubes (MS : MergeShape) : ∀ (n : Nat) (stk : Stack) (todo ac
               · exact Or.inr (by simpa using he)
             · exact Or.inr h3
 
-theorem mkUnion_cubes {new : List M} (h : ∀ y ∈ new, y.isCube = true) : (mkUnion new).isDnf = true := by
-  have hplain := flattenAux_plain false new [] (by
-    intro x hx; have := h x hx; cases x <;> simp_all [M.isCube, M.isUnion])
-  simp only [mkUnion, flattenMarkers, M.isDnf, List.all_eq_true]
+theorem mkUnion_cubes {new : List M} (hne : new ≠ []) (h : ∀ y ∈ new, y.isCube = true) : (mkUnion new).isDnf = true := by
+  have hpl : ∀ x ∈ new, (if false then x.isMulti else x.isUnion) = false := by
+    intro x hx; have := h x hx; cases x <;> simp_all [M.isCube, M.isUnion]
+  have hplain := flattenAux_plain false new [] hpl
+  have hnn := (flattenAux_plain_len false new [] hpl).2 hne
+  simp only [mkUnion, flattenMarkers, M.isDnf, Bool.and_eq_true, List.all_eq_true]
+  refine ⟨by simpa using hnn, ?_⟩
   intro y hy
   rcases hplain.1 y hy with h3 | h3
   · simp at h3
@@ -1646,7 +1701,7 @@ theorem unionOfLoop_cubes (MS : MergeShape) : ∀ (n : Nat) (stk : Stack) (old n
           cases r <;> simp_all [M.isCube, M.isDnf]
         | a :: b :: l, hcl, h =>
           simp only at h; cases h
-          exact mkUnion_cubes hcl
+          exact mkUnion_cubes (by simp) hcl
     · simp only [hb, if_false, Bool.false_eq_true] at h
       obtain ⟨p, h1, h2⟩ := bind_ok.1 h
       cases p with
@@ -1679,8 +1734,8 @@ theorem unionOf_dnf (MS : MergeShape) {n : Nat} {stk : Stack} {ms : List M} {r :
 theorem membersIfUnion_dnf {c : M} (hc : c.isDnf = true) : ∀ x ∈ membersIfUnion c, x.isQOut = true := by
   cases c with
   | union cls =>
-    simp only [membersIfUnion, M.isDnf, List.all_eq_true] at hc ⊢
-    intro x hx; have := hc x hx; cases x <;> simp_all [M.isCube, M.isQOut]
+    simp only [membersIfUnion, M.isDnf, Bool.and_eq_true, List.all_eq_true] at hc ⊢
+    intro x hx; have := hc.2 x hx; cases x <;> simp_all [M.isCube, M.isQOut]
   | _ => simp_all [membersIfUnion, M.isDnf, M.isQOut]
 
 theorem mapDnf_shape {n : Nat} {stk : Stack} (hc : ∀ m r, dnf n stk m = .ok r → r.isDnf = true) :
